@@ -321,7 +321,7 @@ def tasks(tier):
     # (re-run here as dep.c02.*)
     return ['eq:%s' % m for m in mods] + ['names', 'steppers', 'order',
                                           'canary', 'group_names',
-                                          'dep:C02:closure']
+                                          'stateless', 'dep:C02:closure']
 
 
 # ------------------------------------------------------------------ replays
@@ -454,6 +454,8 @@ def run_task(task, ctx):
     repo = Repo()
     if task == 'group_names':
         return task_group_names(ctx, repo)
+    if task == 'stateless':
+        return task_stateless(ctx, repo)
     if task.startswith('eq:'):
         return task_eq_module(ctx, repo, task[3:])
     if task == 'names':
@@ -718,35 +720,198 @@ print(json.dumps(out))
     ctx.prove('steppers.missing', obs, replay=rp, use_nf=False)
 
 
+def task_stateless(ctx, repo):
+    """The verdict on an equation depends on THAT equation and the arrays
+    only: two different equation classes that share a class name (the
+    sources ship seven `SummationDensity`s) checked one after the other in
+    the same process are each checked against their own needs."""
+    m = repo.module(AE)
+    fn = m.functions['check_equation_array_properties']
+    W = m.path
+    universe = ['m', 'rho', 'u', OTHER]
+    needs_ = {'first': dict(ed={'rho'}, es={'m'}, id=set(), is_=set()),
+              'second': dict(ed={'rho'}, es={'m'}, id={'u'}, is_={'u'})}
+
+    def group_ctor(ex, st, args, kwargs, node):
+        eqs = kwargs.get('equations') or (args[0] if args else [])
+        nd = needs_[eqs[0].attrs['which']]
+        src = set('s_' + n for n in nd['es'] | nd['is_'])
+        dst = set('d_' + n for n in nd['ed'] | nd['id'])
+        return SymObject(None, dict(get_array_names=Native(
+            lambda e, s_, a, k, n: (set(src), set(dst)))), 'group')
+
+    def argspec(ex, st, args, kwargs, node):
+        meth = args[0]
+        return ext_getfullargspec(ex, st, args, kwargs, node)
+    ext = dict(EXT)
+    ext['Group'] = group_ctor
+    ex = Executor(repo, m, qualname='check_equation_array_properties',
+                  merge=False, prune=True, externals=ext,
+                  inline={'get_arrays_used_in_equation', 'get_array_names',
+                          '_check_array'})
+    # both are instances of a real shipped class (explicit needs rho, m);
+    # the implicit needs differ through the Group contract above
+    mn, cn = 'pysph.sph.basic_equations', 'SummationDensity'
+    obs = []
+    pcs = []
+    for which in ('first', 'second'):
+        pas, mems = [], {}
+        for a in ('D', 'S'):
+            pa, mem = mk_array(a + which, universe)
+            pa.attrs['name'] = a
+            pas.append(pa)
+            mems[a] = mem
+        eq = SymObject(cn, dict(name=cn, dest='D', sources=['D', 'S'],
+                                no_source=False, which=which), 'equation')
+        eq.module = mn
+        pre = []
+        if which == 'first':
+            pre = [v for a in mems for v in mems[a].values()]
+        outs = ex.exec_function(fn, dict(equation=eq, particle_arrays=pas),
+                                State(pc=pre))
+        if which == 'first':
+            obs.append(Obligation('stateless.first_accepted', [], z3.BoolVal(
+                any(o.kind == 'return' for o in outs)), W))
+            continue
+        miss = z3.Or(z3.Not(mems['D']['u']), z3.Not(mems['S']['u']))
+        for i_, o in enumerate(outs):
+            if o.kind == 'return':
+                obs.append(Obligation('stateless.second.%d' % i_, o.pc,
+                                      z3.Not(miss), W,
+                                      extra=dict(backends=['z3'])))
+    ctx.function(m, fn, 'check_equation_array_properties (two calls)',
+                 ex.dropped)
+
+    def rp(model, ob):
+        script = r"""
+import json, sys, importlib.util
+d = json.load(sys.stdin)
+spec = importlib.util.spec_from_file_location('pysph.sph.acceleration_eval_ut', d['root'] + '/pysph/sph/acceleration_eval.py')
+mod = importlib.util.module_from_spec(spec); mod.__package__ = 'pysph.sph'; spec.loader.exec_module(mod)
+from pysph.sph.basic_equations import SummationDensity as A
+from pysph.sph.gas_dynamics.tsph import SummationDensity as B
+from pysph.base.utils import get_particle_array
+import inspect
+full = get_particle_array(name='f', x=[0.0, 1.0])
+for p in ('arho', 'grhox', 'grhoy', 'grhoz', 'dwdh', 'omega', 'converged', 'n', 'h0', 'ah', 'div', 'cs', 'e'):
+    full.add_property(p)
+mod.check_equation_array_properties(A('f', ['f']), [full])
+need = [a[2:] for a in inspect.getfullargspec(B.loop).args if a[:2] in ('d_', 's_')]
+pa = get_particle_array(name='f', x=[0.0, 1.0])
+for p in set(need) | set(['arho', 'grhox', 'grhoy', 'grhoz', 'dwdh', 'omega', 'converged', 'n', 'h0', 'ah', 'div', 'cs', 'e']):
+    if p not in pa.properties: pa.add_property(p)
+for p in ('u', 'v', 'w'):
+    pa.remove_property(p)
+bad = None
+try:
+    eqb = B('f', ['f'], dim=1, density_iterations=False, iterate_only_once=True, k=1.2, htol=1e-6) if 'dim' in inspect.getfullargspec(B.__init__).args else B('f', ['f'])
+    mod.check_equation_array_properties(eqb, [pa])
+    if 'VIJ' in inspect.getfullargspec(B.loop).args:
+        bad = dict(problem='second class named SummationDensity accepted although u, v, w (needed through VIJ) are missing')
+except RuntimeError:
+    pass
+print(json.dumps(dict(bad=bad)))
+"""
+        from pyvc.repo import REPO_ROOT
+        try:
+            r = native.run_venv(script, dict(root=REPO_ROOT))
+        except Exception as e_:
+            return dict(reproduced=False, note=str(e_)[-300:])
+        return dict(reproduced=bool(r['bad']), **(r['bad'] or {}))
+    ctx.prove('stateless.same_name_different_class_checked_afresh', obs,
+              replay=rp, use_nf=False)
+
+
 def task_order(ctx, repo):
-    """AccelerationEval.__init__: every equation is checked before MegaGroup
-    construction (which is what the code generator consumes)."""
+    """AccelerationEval.__init__ (every back end): EVERY equation of every
+    group -- those inside sub-groups included -- is handed to
+    check_equation_array_properties, with the particle arrays given, before
+    the first MegaGroup (what the code generators consume) is built."""
+    from pyvc.symexec import CalleeContract
     m = repo.module(AE)
     fn = m.methods('AccelerationEval')['__init__']
-    order = []
-    for node in ast.walk(fn):
-        if isinstance(node, ast.Call):
-            nm = node.func.id if isinstance(node.func, ast.Name) else (
-                node.func.attr if isinstance(node.func, ast.Attribute)
-                else None)
-            if nm in ('check_equation_array_properties', 'MegaGroup'):
-                order.append((node.lineno, nm))
-    order.sort()
-    names = [n for _, n in order]
-    ok = 'check_equation_array_properties' in names and \
-        'MegaGroup' in names and \
-        names.index('check_equation_array_properties') < \
-        names.index('MegaGroup')
-    # the check is inside a loop over all equations
-    in_loop = False
-    for node in ast.walk(fn):
-        if isinstance(node, ast.For):
-            for sub in ast.walk(node):
-                if isinstance(sub, ast.Call) and isinstance(
-                        sub.func, ast.Name) and sub.func.id == \
-                        'check_equation_array_properties':
-                    in_loop = True
+    W = m.path
+    obs = []
+    for backend in ('cython', 'opencl', 'cuda'):
+        def eq(tag):
+            return SymObject(None, {}, tag)
+        a, b, c, d, e = [eq(t) for t in 'abcde']
+        sub1 = SymObject(None, dict(equations=[a, b], has_subgroups=False),
+                         'sub1')
+        sub2 = SymObject(None, dict(equations=[c], has_subgroups=False),
+                         'sub2')
+        g1 = SymObject(None, dict(equations=[sub1, sub2],
+                                  has_subgroups=True), 'g1')
+        g2 = SymObject(None, dict(equations=[d, e], has_subgroups=False),
+                       'g2')
+        arrays = ['PA0', 'PA1']
+        obj = SymObject('AccelerationEval', {}, 'self')
+        obj.module = m.name
+        ex = Executor(repo, m, qualname='AccelerationEval.__init__',
+                      merge=False, contracts={
+                          'AccelerationEval._get_backend': CalleeContract(
+                              lambda e_, s_, a_, k, n, b_=backend: b_)},
+                      externals={
+                          'group_equations': lambda e_, s_, a_, k, n:
+                          [g1, g2],
+                          'check_equation_array_properties':
+                          lambda e_, s_, a_, k, n: s_.trace.append(
+                              ('check', a_[0].name, a_[1])),
+                          'MegaGroup': lambda e_, s_, a_, k, n:
+                          s_.trace.append(('mega', a_[0].name))})
+        for nm in ('CythonGroup', 'OpenCLGroup', 'CUDAGroup'):
+            ex.spec_env[nm] = Native(lambda e_, s_, a_, k, n, nm=nm:
+                                     s_.trace.append(('group', nm)))
+        try:
+            outs = ex.exec_function(fn, dict(
+                self=obj, particle_arrays=arrays, equations=['EQS'],
+                kernel='K', mode='serial', backend=backend))
+        except VCError as e_:
+            ctx.outside('order.%s' % backend, str(e_))
+            continue
+        ok = len(outs) == 1
+        why = ''
+        if ok:
+            tr = outs[0].state.trace
+            firstmega = min([i_ for i_, t in enumerate(tr)
+                             if t[0] == 'mega'] or [len(tr)])
+            checked = [t[1] for t in tr[:firstmega] if t[0] == 'check']
+            ok = sorted(checked) == ['a', 'b', 'c', 'd', 'e'] and all(
+                t[2] == arrays for t in tr if t[0] == 'check') and \
+                [t[1] for t in tr if t[0] == 'mega'] == ['g1', 'g2']
+            why = 'checked before code generation: %s' % checked
+        obs.append(Obligation('order.%s' % backend, [], z3.BoolVal(bool(ok)),
+                              W, extra=dict(why=why)))
     ctx.function(m, fn, 'AccelerationEval.__init__')
-    ctx.prove('check_before_codegen', [Obligation(
-        'order', [], z3.BoolVal(bool(ok and in_loop)), m.path)],
-        info='structural: call order in __init__: %s' % names)
+
+    def rp(model, ob):
+        script = r"""
+import json, sys, importlib.util
+d = json.load(sys.stdin)
+spec = importlib.util.spec_from_file_location('pysph.sph.acceleration_eval_ut', d['root'] + '/pysph/sph/acceleration_eval.py')
+mod = importlib.util.module_from_spec(spec); mod.__package__ = 'pysph.sph'; spec.loader.exec_module(mod)
+from pysph.sph.equation import Equation, Group
+from pysph.base.utils import get_particle_array
+class NeedsFoo(Equation):
+    def initialize(self, d_idx, d_foo):
+        d_foo[d_idx] = 0.0
+pa = get_particle_array(name='f', x=[0.0, 1.0])
+bad = None
+for label, eqs in (('flat', [NeedsFoo('f', None)]),
+                   ('group', [Group([NeedsFoo('f', None)])]),
+                   ('sub-group', [Group([Group([NeedsFoo('f', None)]), Group([NeedsFoo('f', None)])])])):
+    try:
+        mod.AccelerationEval([pa], eqs, None, backend='cython')
+        if bad is None:
+            bad = dict(structure=label, problem='an equation needing the missing property foo was accepted')
+    except RuntimeError:
+        pass
+print(json.dumps(dict(bad=bad)))
+"""
+        from pyvc.repo import REPO_ROOT
+        try:
+            r = native.run_venv(script, dict(root=REPO_ROOT))
+        except Exception as e_:
+            return dict(reproduced=False, note=str(e_)[-300:])
+        return dict(reproduced=bool(r['bad']), **(r['bad'] or {}))
+    ctx.prove('check_before_codegen', obs, replay=rp)
